@@ -192,32 +192,32 @@ class SubPoly(object):
 #------------------------------------------------------------------------------
   def __and__(self,rvalue):
       assert self.size==rvalue.size
-      res = self.__class__(0,size=self.size,dim=max(self.dim,rvalue.dim))
+      res = self.__class__([0]*max(self.dim,rvalue.dim),size=self.size)
       for j in range(res.dim):
           res[j] = self.e(j)&rvalue.e(j)
       return res
   def __or__(self,rvalue):
       assert self.size==rvalue.size
-      res = self.__class__(0,size=self.size,dim=max(self.dim,rvalue.dim))
-      for j in range(self.dim):
+      res = self.__class__([0]*max(self.dim,rvalue.dim),size=self.size)
+      for j in range(res.dim):
           res[j] = self.e(j)|rvalue.e(j)
       return res
   def __xor__(self,rvalue):
       assert self.size==rvalue.size
-      res = self.__class__(0,size=self.size,dim=max(self.dim,rvalue.dim))
-      for j in range(self.dim):
+      res = self.__class__([0]*max(self.dim,rvalue.dim),size=self.size)
+      for j in range(res.dim):
           res[j] = self.e(j)^rvalue.e(j)
       return res
   def __add__(self,rvalue):
       assert self.size==rvalue.size
-      res = self.__class__(0,size=self.size,dim=max(self.dim,rvalue.dim))
-      for j in range(self.dim):
+      res = self.__class__([0]*max(self.dim,rvalue.dim),size=self.size)
+      for j in range(res.dim):
           res[j] = self.e(j)+rvalue.e(j)
       return res
   def __sub__(self,rvalue):
       assert self.size==rvalue.size
-      res = self.__class__(0,size=self.size,dim=max(self.dim,rvalue.dim))
-      for j in range(self.dim):
+      res = self.__class__([0]*max(self.dim,rvalue.dim),size=self.size)
+      for j in range(res.dim):
           res[j] = self.e(j)-rvalue.e(j)
       return res
   def __mul__(self,rvalue):
